@@ -4,7 +4,7 @@ import shutil
 from harness import asmrun
 
 ID = "C06"
-MODULES = ["HeraProofs.Props.C06", "HeraProofs.Props.C06b"]
+MODULES = ["HeraProofs.Props.C06", "HeraProofs.Props.C06b", "HeraProofs.Props.C06c"]
 GENERATED_DEPS = ["Ops.lean", "Exec.lean", "Tables.lean"]
 EXPLANATION = ("Theorem chain: C01_step (every interpreted instruction has its architected effect), C05_decode_sound (every emitted "
                "word decodes back to the operation), C06_exec_canon (the canonical operand form a decoder recovers executes identically), "
